@@ -106,6 +106,17 @@ def outcome(fn, c, A, ctx):
     return ("ok", norm(value))
 
 
+def _without_labels(n):
+    """Normal form without the lazily added asym_mol_idx annotation."""
+    if isinstance(n, dict):
+        if "__mol__" in n:
+            n = dict(n, props={k: v for k, v in n["props"].items() if k != "asym_mol_idx"})
+        return {k: _without_labels(v) for k, v in n.items()}
+    if isinstance(n, list):
+        return [_without_labels(v) for v in n]
+    return n
+
+
 def outcome_digest(o):
     return o[0] + ":" + (o[1] if o[0] == "raised" else digest(o[1]))
 
@@ -277,6 +288,10 @@ class Sim:
         if self.armed[hi]:
             self.nontrivial_checks += 1
         self._log(i, hi, op, outcome_digest(a))
+        if a[0] == "ok" and b[0] == "ok" and digest(_without_labels(a[1])) != digest(_without_labels(b[1])) and outcomes_equal(a, b):
+            # equal within tolerance but not bit for bit (never seen so far)
+            self.stats["inexact_equal_pairs"] += 1
+            self.stats["inexact:%s:%s" % (op, self.ref_mode)] += 1
         if not outcomes_equal(a, b):
             cls = "EXCEPTION_MISMATCH" if a[0] != b[0] or a[0] == "raised" else "STALE_ANSWER"
             detail = {
